@@ -3,6 +3,9 @@
      bn <sc> <nx> <ny> <k> <x0x> <x0y> <niter> { <idx> <ncand> { <x> <y> }* }*
      hu <sc> <npts> { <x> <y> }*
      un <n>
+     bw <a> <b> <m> <sc> <nx> <ny> <k> <x0x> <x0y> <niter> { <idx> <ncand> { <x> <y> }* }*     (windowed loop)
+     cl <sc> <nx> <ny> <nsamples> { <x> <y> }*                                               (cells dictionary)
+     hf <sc> <nx> <ny> <n> { <ox> <oy> }* <n> { <kx> <ky> }*                                 (jittered grid; nx, ny decimal)
    Output: "key tokens..." lines followed by "end". *)
 open Model
 open Hexio
@@ -34,6 +37,43 @@ let cmd_bn c =
     out "trace" (s_list s_outcome tr);
     out "normalised" (s_list (fun p -> let (a, b) = normalise sc nx ny p in s_q a ^ " " ^ s_q b) st.samples)
 
+let cmd_bw c =
+  let a = next_z c in
+  let b = next_z c in
+  let m = next_z c in
+  let sc = next_z c in
+  let nx = next_z c in
+  let ny = next_z c in
+  let k = next_nat c in
+  let x0 = next_zpair c in
+  let its = next_list c (fun c -> let idx = next_nat c in let cands = next_list c next_zpair in (idx, cands)) in
+  match run_trace_window a b m sc nx ny k (init x0) its with
+  | None -> out "ok" "0"
+  | Some (st, tr) ->
+    out "ok" "1";
+    out "samples" (s_list s_zpair st.samples);
+    out "active" (s_list s_nat st.active);
+    out "finished" (s_bool (finished st));
+    out "trace" (s_list s_outcome tr)
+
+let cmd_cl c =
+  let sc = next_z c in
+  let nx = next_z c in
+  let ny = next_z c in
+  let ss = next_list c next_zpair in
+  out "cells" (s_list (fun (key, v) -> s_zpair key ^ " " ^ s_onat v) (cells_after sc nx ny ss));
+  out "max" (s_z (max_samples nx ny))
+
+let cmd_hf c =
+  let sc = next_z c in
+  let nx = next_nat c in
+  let ny = next_nat c in
+  let offs = next_list c next_zpair in
+  let kicks = next_list c next_zpair in
+  out "den" (s_z (hu_den sc nx) ^ " " ^ s_z (hu_den sc ny));
+  out "final" (s_list s_zpair (hu_final_l sc nx ny offs kicks));
+  out "kept" (s_list s_zpair (hyperuniform_full_l sc nx ny offs kicks))
+
 let cmd_hu c =
   let sc = next_z c in
   let pts = next_list c next_zpair in
@@ -55,6 +95,9 @@ let () =
           | "bn" -> cmd_bn c
           | "hu" -> cmd_hu c
           | "un" -> cmd_un c
+          | "bw" -> cmd_bw c
+          | "cl" -> cmd_cl c
+          | "hf" -> cmd_hf c
           | _ -> out "error" ("unknown command " ^ cmd))
        with Failure m -> out "error" m);
       print_endline "end")
